@@ -19,6 +19,9 @@ EXCLUDE_KNOWN = {
     "maps/outline-from-data/corner-symmetry": True,
     "maps/outline-from-text/right-edge-empty": True,
     "maps/outline-from-text/bottom-row-short": True,
+    # pin `grid contents` written with bare integers are never matched by latticeIDs (GridBlueprint.getLocators compares the
+    # str() of the latticeIDs with the raw specifier): the component is silently left off the lattice
+    "component/int-grid-specifier-unmatched": True,
 }
 
 
@@ -424,7 +427,8 @@ def gridsave_execute(case):
 def bp_strategy(tier):
     from vp.gen import c18_bp
 
-    return st.fixed_dictionaries({"spec": c18_bp.bp_spec(max_rings=3 if tier == "quick" else 4)})
+    return st.fixed_dictionaries({"spec": c18_bp.bp_spec(max_rings=3 if tier == "quick" else 4,
+                                                         allow_int_ids=not EXCLUDE_KNOWN["component/int-grid-specifier-unmatched"])})
 
 
 def _flag_names(flags):
@@ -635,7 +639,8 @@ def _check_component(out, exp, bexp, cexp, b, c, where, burn, deep):
     # multiplicity
     if "mult" in c.DIMENSION_NAMES:
         m = c.getDimension("mult")
-        out.check(m is not None and cexp["mult"] is not None and float(m) == float(cexp["mult"]), "component/mult",
+        out.check(m is not None and cexp["mult"] is not None and float(m) == float(cexp["mult"]),
+                  "component/int-grid-specifier-unmatched" if (bexp.get("gridIntSpecs") and cexp["cells"] is not None) else "component/mult",
                   lambda: "%s: mult %r, document gives %r" % (where, m, cexp["mult"]))
         if cexp["multLink"] and cexp["cells"] is None:
             raw = c.p.mult
@@ -659,7 +664,7 @@ def _check_component(out, exp, bexp, cexp, b, c, where, burn, deep):
 
         loc = c.spatialLocator
         got = sorted((int(x.i), int(x.j)) for x in loc) if isinstance(loc, grids.MultiIndexLocation) else None
-        out.check(got == [tuple(x) for x in cexp["cells"]], "component/lattice-positions", lambda: "%s: at %r, lattice gives %r" % (where, got, cexp["cells"]))
+        out.check(got == [tuple(x) for x in cexp["cells"]], "component/int-grid-specifier-unmatched" if (got is None and bexp.get("gridIntSpecs")) else "component/lattice-positions", lambda: "%s: at %r, lattice gives %r" % (where, got, cexp["cells"]))
     # flags
     if cexp["explicitFlags"] is not None:
         want = cexp["explicitFlags"]
@@ -905,11 +910,14 @@ _DUP_SIGS = {
     "dup-component-name": "inconsistent/duplicate-component-name-accepted",
     "dup-assembly-name": "inconsistent/duplicate-assembly-name-accepted",
     "dup-grid-name": "inconsistent/duplicate-grid-name-accepted",
+    # AssemblyBlueprint._checkParamConsistency files the by-component lists under the modification name only: a too long list
+    # of one component is not seen when a later component has a (correct) list of the same name; the surplus entry is dropped
+    "bycomp-length-same-name": "inconsistent/by-component-length-same-name-accepted",
 }
 EXCLUDE_KNOWN.update({sig: True for sig in _DUP_SIGS.values()})
 
 
-_KIND_WEIGHT = {"bundle-exceeds-inner-duct": 3, "mult-conflict": 2}
+_KIND_WEIGHT = {"bundle-exceeds-inner-duct": 3, "mult-conflict": 2, "bycomp-length": 3, "assembly-area": 2}
 
 
 def bad_strategy(tier):
@@ -998,7 +1006,8 @@ PARTS = [
               "stacks in reverse order gives every component the same composition; non-trivial as for blueprints"),
     Part("inconsistent", bad_execute, strategy=bad_strategy, budget={"quick": 360, "thorough": 20000}, procs={"quick": 4, "thorough": 16},
          rule="a well-formed generated document with exactly one inconsistency injected (unknown specifier, list of wrong length for "
-              "heights/xs types/mesh points/modifications, pins larger than the duct, wire-wrapped pin bundle wider than the inner "
+              "heights/xs types/mesh points/by-block and by-component modifications (any list of a component with several "
+              "modification names), an assembly design of another cross-sectional area (any position, larger or smaller), pins larger than the duct, wire-wrapped pin bundle wider than the inner "
               "duct of a two-duct hex block but narrower than the outer duct, clad with id > od, duplicate grid location or "
               "attribute, mult conflicting with the lattice, modification for an unknown component / unknown key, dangling link, "
               "unknown shape/flag/isotopics label/grid, isotopic fractions not summing to 1, density given with number densities): "
